@@ -274,6 +274,15 @@ def run_step_polars(pre_factory, label, fn):
             names = list(new._cache.name_to_uuid.keys())
             vc.require(p.pc, z3.And(TS.seq_eq(acc[0], names), z3.BoolVal(acc[1] == len(names)), TS.seq_eq(acc[2], names), TS.seq_eq(acc[3], names), z3.BoolVal(all(acc[4]))), "M4: iteration / len / columns() / dir / in disagree with name_to_uuid", wit)
             vc.require(p.pc, TS.seq_eq(list(exported.cols.keys()), names), "exported frame columns differ from columns()", wit)
+            if label.startswith("summarize"):
+                # one row per group of EXACTLY the grouping columns (also when an aggregate takes the name of a grouping column)
+                df_ = state[0]
+                gops = [op for op in df_.hist if op[0] == "group_by"]
+                want = tuple(pre.token(i) for i in pre.grp)
+                if pre.grp:
+                    vc.require(p.pc, z3.BoolVal(bool(gops) and tuple(gops[-1][1]) == want), f"summarize groups the frame by {gops[-1][1] if gops else None}; the grouping columns hold {want}", wit)
+                else:
+                    vc.require(p.pc, z3.BoolVal(not gops), "an ungrouped summarize groups the frame", wit)
             # M5 incremental == recomputed (the recursive from_ast(child) is answered by the pre-state cache)
         return vc.outcome(axioms=sorted(plmodel.AXIOMS_USED))
 
